@@ -191,7 +191,9 @@ def run_real(cfg: Dict[str, Any]) -> Tuple[List[List[Any]], str]:
                 raise _Boom(ob.i)
 
     def mk(tag: str):
-        class E(V.VisitorExt):  # type: ignore[type-arg]
+        # how an extension class comes by its handlers is no dimension of the spec, so every run mixes the three ways: defined by
+        # the class itself (B, I), all inherited from another extension class (B2, O), the departure alone inherited (A)
+        class Own(V.VisitorExt):  # type: ignore[type-arg]
             when = getattr(V.When, EXT_WHEN[tag])
 
             def visit_Nd(self, ob):
@@ -199,6 +201,16 @@ def run_real(cfg: Dict[str, Any]) -> Tuple[List[List[Any]], str]:
 
             def depart_Nd(self, ob):
                 events.append([tag, "depart", ob.i])
+
+        if tag in ("B2", "O"):
+            class E(Own):
+                when = getattr(V.When, EXT_WHEN[tag])
+        elif tag == "A":
+            class E(Own):       # type: ignore[no-redef]
+                def visit_Nd(self, ob):
+                    events.append([tag, "visit", ob.i])
+        else:
+            E = Own             # type: ignore[misc]
         E.__name__ = "E_" + tag
         return E
 
@@ -370,7 +382,17 @@ def extension_class_histories() -> List[Dict[str, Any]]:
 
             def depart_FunctionDef(self, node):
                 log.append([self.tag, "depart", node.name])
-        return Base, Derived, log
+
+        class Heir(Derived):            # defines no handler of its own: everything is inherited
+            when = V.When.INNER
+            tag = "heir"
+
+        class HalfHeir(Derived):        # enters classes its own way, leaves them the inherited way
+            tag = "halfheir"
+
+            def visit_ClassDef(self, node):
+                log.append([self.tag, "visit", node.name])
+        return {"base": Base, "derived": Derived, "heir": Heir, "halfheir": HalfHeir}, log
 
     def walk(ext: type, name: str) -> None:
         system = model.System()
@@ -385,12 +407,13 @@ def extension_class_histories() -> List[Dict[str, Any]]:
         finally:
             model.System.msg = orig
 
-    for history in (["derived"], ["base", "derived"], ["derived", "base", "derived"], ["base", "base", "derived", "derived"]):
-        Base, Derived, log = make()
+    for history in (["derived"], ["base", "derived"], ["derived", "base", "derived"], ["base", "base", "derived", "derived"],
+                    ["heir"], ["halfheir"], ["base", "heir"], ["heir", "derived", "halfheir"], ["derived", "heir", "base", "halfheir", "heir"]):
+        classes, log = make()
         for step, which in enumerate(history):
             del log[:]
             try:
-                walk(Base if which == "base" else Derived, f"m{step}")
+                walk(classes[which], f"m{step}")
             except Exception as e:
                 bad.append({"history": history, "step": step, "what": f"walk aborted: {type(e).__name__}: {e}"})
                 continue
@@ -435,6 +458,28 @@ def builder_states_of_package(path) -> List[Tuple[str, Tuple[int, bool, bool]]]:
     finally:
         astbuilder.ASTBuilder.processModuleAST = orig_pm
         model.System.msg = orig_msg
+    return out
+
+
+def deeper_cfgs(sizes: List[int]) -> List[Dict[str, Any]]:
+    """Every tree shape of the given sizes x at most one pruning node (every kind) x walk | walkabout x no / all extensions."""
+    import itertools
+    out: List[Dict[str, Any]] = []
+    for n in sizes:
+        for tail in itertools.product(*[range(1, i) for i in range(2, n + 1)]):
+            parent = [0] + list(tail)
+            for at in range(0, n + 1):
+                kinds = ["none"] if at == 0 else ["SkipChildren", "SkipSiblings", "SkipNode", "SkipDeparture", "DepartSkipSiblings"]
+                for kd in kinds:
+                    for mode in ("walk", "walkabout"):
+                        if mode == "walk" and kd == "DepartSkipSiblings":
+                            continue
+                        prune = ["none"] * n
+                        if at:
+                            prune[at - 1] = kd
+                        for exts in ([], ["B", "A", "I", "O"]):
+                            out.append({"cid": 0, "n": n, "parent": parent, "prune": prune, "mode": mode, "hist": "fresh",
+                                        "nest": {"prune": "none", "at": 0, "when": "visit", "how": "walk"}, "edit": {"at": 0, "drop": 0}, "exts": exts})
     return out
 
 
@@ -589,6 +634,29 @@ def run(ctx: Ctx) -> int:
         if o["stack"].get("stack") != 0 or not o["stack"].get("current_is_none"):
             ctx.violation({"invariant": "StackEmptyAfterModule", "origin": "astbuilder", "input": src,
                            "observed": o["stack"], "key": "stack:" + src[:80]})
+    # ---- deeper trees than TLC enumerates blindly: every tree of 4-5 nodes (thorough: 6) with ONE pruning node, run through the
+    #      real Visitor, judged by the contract, and re-run by TLC from the configuration (Source = "file")
+    deep = deeper_cfgs([4, 5] if ctx.quick else [4, 5, 6])
+    deep_obs: List[Dict[str, Any]] = []
+    for cfg in deep:
+        ev, st = run_real(cfg)
+        ctx.traces += 1
+        judge(ctx, cfg, ev, st, "deeper-trees")
+        deep_obs.append({"cfg": cfg, "events": ev, "status": st})
+    deep_mismatch = 0
+    for batch in chunks(deep_obs, 1500):
+        f = ctx.scratch / "deep.json"
+        f.write_text(json.dumps([o["cfg"] for o in batch]))
+        rd = ctx.tlc("Visitor", CFG_FILE, workers=1, env={"CFG_FILE": str(f)}, check=True, timeout=1500)
+        got = {rec["cfg"]["cid"]: rec for rec in rd.printed}
+        if len(got) != len(batch):
+            raise MachineryError(f"TLC returned {len(got)} behaviours for {len(batch)} deeper configurations")
+        for i, o in enumerate(batch, 1):
+            if got[i]["events"] != o["events"] or got[i]["status"] != o["status"]:
+                deep_mismatch += 1
+                ctx.drift_note({"origin": "deeper-trees", "cfg": o["cfg"], "spec": got[i]["events"], "real": o["events"]})
+    ctx.extra["deeper_tree_configurations"] = len(deep)
+    ctx.extra["deeper_tree_mismatches"] = deep_mismatch
     # ---- histories of extension classes (a class deriving from another extension class, used after / before its base)
     for wit in extension_class_histories():
         ctx.violation({"invariant": "ExtBalanced", "origin": "extension-class-history", "observed": wit,
@@ -612,6 +680,26 @@ def run(ctx: Ctx) -> int:
                 ctx.violation({"invariant": "StackEmptyAfterModule", "origin": "astbuilder-package", "module": name, "files": files,
                                "observed": {"stack": state[0], "current_is_none": state[1], "currentMod_is_none": state[2]},
                                "key": "pkgstack:" + str(state)})
+    # the open scope is MOVED while it is walked: a module analysed in the middle of a class body re-exports that very class
+    # (overloads declared around the import, a nested class, a plain method after it), in both analysis orders
+    for t, (first, second) in enumerate((("ashapes", "zapi"), ("zshapes", "aapi"))):
+        body = ("from typing import overload, Union\nclass Shape:\n    'A shape.'\n    @overload\n    def scale(self, by: int) -> 'Shape': ...\n"
+                f"    from pk.{second} import clamp\n    @overload\n    def scale(self, by: float) -> 'Shape': ...\n"
+                "    def scale(self, by):\n        'Scale.'\n        return self\n    class Inner:\n        def m(self): pass\n"
+                f"    from pk.{second} import clamp as again\n    def area(self):\n        'Area.'\ndef unit():\n    'Unit.'\n    from pk.{second} import clamp\n")
+        files = {"pk/__init__.py": "", f"pk/{first}.py": body,
+                 f"pk/{second}.py": f"from pk.{first} import Shape\n__all__ = ['Shape', 'clamp']\ndef clamp(x):\n    'Clamp.'\n"}
+        d = ctx.scratch / f"pkgmoved{t}"
+        for rel, text in files.items():
+            f = d / rel
+            f.parent.mkdir(parents=True, exist_ok=True)
+            f.write_text(text)
+        states = builder_states_of_package(d / "pk")
+        pkg_modules += len(states)
+        if len(states) != 3 or any(st != (0, True, True) for _, st in states):
+            pkg_bad += 1
+            ctx.violation({"invariant": "StackEmptyAfterModule", "origin": "astbuilder-package", "module": str(states), "files": files,
+                           "observed": {"states": [[n, list(st)] for n, st in states]}, "key": f"pkgmoved:{t}"})
     ctx.extra["astbuilder_package_modules"] = pkg_modules
     ctx.extra["astbuilder_modules"] = len(obs)
     ctx.extra["astbuilder_pruned_nodes"] = sum(1 for o in obs for p in o["cfg"]["prune"] if p != "none")
@@ -672,7 +760,8 @@ def replay(ctx: Ctx, path: str) -> int:
             f = d / rel
             f.parent.mkdir(parents=True, exist_ok=True)
             f.write_text(text)
-        bad = ["StackEmptyAfterModule"] if any(st != (0, True, True) for _, st in builder_states_of_package(d / "pk")) else []
+        states = builder_states_of_package(d / "pk")
+        bad = ["StackEmptyAfterModule"] if any(st != (0, True, True) for _, st in states) or len(states) != sum(1 for rel in w["files"] if rel.endswith(".py")) else []
     elif w.get("origin") == "astbuilder" and "input" in w:
         o = observe_builder(w["input"], w.get("cfg", {}).get("exts", []))
         bad = ["WalkCompletes"] if o["status"].startswith("aborted") else contract(o["cfg"], o["events"], o["status"])
